@@ -154,7 +154,7 @@ def main():
         })
     man = {
         'version': 1,
-        'setup_cmd': 'cd lean && python3 ../tools/gen_tables.py && python3 ../tools/gen_code.py && lake build DcmVerif dcmdriver ' + ' '.join('DcmVerif.Props.C%02d' % i for i in range(1, 21)),
+        'setup_cmd': 'cd lean && python3 ../tools/gen_tables.py && python3 ../tools/gen_code.py && lake build DcmVerif dcmdriver dcmcode ' + ' '.join('DcmVerif.Props.C%02d' % i for i in range(1, 21)),
         'hooks': {
             'guard': 'DCMSTACK_VERIF',
             'enable': 'no source hooks are needed: the harness imports /repo/src in-process (PYTHONPATH) and observes through the public API; DCMSTACK_VERIF=1 is exported by tools/check for completeness',
